@@ -1,6 +1,8 @@
 package bcheck
 
 import (
+	"os"
+	"strconv"
 	"errors"
 	"fmt"
 	"net"
@@ -89,13 +91,17 @@ func c14Scenarios(tier string) []*Scenario {
 		}
 	}
 	if tier == "thorough" {
-		a := c14Scenario("thread", "eof", vs.Unbounded)
-		a.Name = "validate-cached/thread/eof"
-		a.Pair = "validate-uncached/thread/eof"
-		b := c14Scenario("thread", "eof", vs.Unbounded)
-		b.Name = "validate-uncached/thread/eof"
-		b.NoCache = true
-		out = append(out, a, b)
+		// soundness of the happens-before state cache: the same scenario with and without the cache
+		// must reach the same set of terminal states (uncached exploration is only feasible bounded)
+		for _, rt := range [][2]string{{"after", "eof"}, {"none", "localclose"}, {"after", "panic"}, {"none", "eof"}} {
+			a := c14Scenario(rt[0], rt[1], c14ValBound)
+			a.Name = fmt.Sprintf("validate-cached/%s/%s", rt[0], rt[1])
+			a.Pair = fmt.Sprintf("validate-uncached/%s/%s", rt[0], rt[1])
+			b := c14Scenario(rt[0], rt[1], c14ValBound)
+			b.Name = a.Pair
+			b.NoCache = true
+			out = append(out, a, b)
+		}
 	}
 	return out
 }
@@ -391,3 +397,12 @@ func c12Tie(R int, kind string) []c12Act {
 	sc[R] = c12Act{Kind: kind, Delay: 2}
 	return sc
 }
+
+// c14ValBound is the preemption bound of the cache-validation pair.
+var c14ValBound = func() int {
+	if v := os.Getenv("C14_VALBOUND"); v != "" {
+		n, _ := strconv.Atoi(v)
+		return n
+	}
+	return vs.Unbounded
+}()
